@@ -17,14 +17,14 @@ NEEDS = ["harness", "cli"]
 RULE = ("(a) pmf grid: hypergeometric_pmf(N,K,n,k) for ALL 0<=K<=N, 0<=n<=N, 0<=k<=n with N<=Nmax (quick 26, thorough 48); "
         "(b) every N from Nmax+1 to 168 with seeded queries centred on n~N/2, k~mode, and large one-axis sizes N in {50,169..172,340,341,500,1000,1029,1030,1500,2000,3000,4000}: seeded (K,n,k) samples always including "
         "n in {1,N/2,N-1,N}, K in {0,1,N/2,N} and the mode k; (c) operator wiring: every unit vector of every shape in a grid (1-3 axes) "
-        "projected to every admissible target; (d) random signed/real spectra (1-4 axes) vs exact rational projection, and the laws mass, "
+        "projected to every admissible target; (c2) Spectrum::project of sparse one-/two-axis spectra between LARGE sizes (N up to 4000 chromosomes down to targets in the hundreds/thousands, mass at intermediate allele counts) vs big-integer reference; (d) random signed/real spectra (1-4 axes) vs exact rational projection, and the laws mass, "
         "non-negativity, identity (exact), two-step == direct, commutes with marginalization; (e) inadmissible targets -> the stated error; "
         "(f) CLI view --project-shape/-individuals. Tolerance: relative 1e-9 of the exact coefficient (abs 1e-300), 1e-9*sum|x| for spectra. "
         "Non-trivial: a coefficient strictly between 0 and 1 / a projection that really reduces a size; distinct = digest of the query.")
 ASSUMPTIONS = ["exact reference: math.comb big integers and fractions.Fraction",
                "measured worst relative error of the real pmf is ~3e-12, so 1e-9 has a 300x margin while a wrong index/weight is off by >=1e-3"]
-FLOORS = {"quick": {"evaluations": 50000, "distinct_nontrivial": 20000, "counts": {"pmf_grid": 40000, "pmf_large": 5000, "unit_vectors": 2000, "random_spectra": 300}},
-          "thorough": {"evaluations": 1000000, "distinct_nontrivial": 300000, "counts": {"pmf_grid": 700000, "pmf_large": 100000, "unit_vectors": 20000, "random_spectra": 10000}}}
+FLOORS = {"quick": {"evaluations": 50000, "distinct_nontrivial": 20000, "counts": {"pmf_grid": 40000, "pmf_large": 5000, "unit_vectors": 2000, "random_spectra": 300, "big_target_projections": 150}},
+          "thorough": {"evaluations": 1000000, "distinct_nontrivial": 300000, "counts": {"pmf_grid": 700000, "pmf_large": 100000, "unit_vectors": 20000, "random_spectra": 10000, "big_target_projections": 4000}}}
 NSHARD = 32
 LARGE = [50, 169, 170, 171, 172, 340, 341, 500, 1000, 1029, 1030, 1500, 2000, 3000, 4000]
 REL = 1e-9
@@ -34,7 +34,7 @@ def plan(tier, seed):
     nmax = 26 if tier == "quick" else 56
     per_large = 30 if tier == "quick" else 1500
     return [{"name": "s%d" % i, "i": i, "nmax": nmax, "per_large": per_large, "rand": 14 if tier == "quick" else 2500,
-             "units": 1 if tier == "quick" else 10, "cli": 3 if tier == "quick" else 250} for i in range(NSHARD)]
+             "units": 1 if tier == "quick" else 10, "bigproj": 6 if tier == "quick" else 150, "cli": 3 if tier == "quick" else 250} for i in range(NSHARD)]
 
 
 def close(got, exact, scale=None):
@@ -144,6 +144,65 @@ def check_units(S, p):
         if r["shape"] != to or bad:
             S.viol("C03:operator", "[unit %r->%r source index %r] (target index, got, exact) %r" % (shape, to, k, bad[:5]), wit)
         S.case(key=digest([shape, to, flat]), nontrivial=to != shape)
+
+
+def check_big_targets(S, p):
+    """Spectrum::project between LARGE axis sizes: N chromosomes down to a target m that is itself in the hundreds or thousands
+    (the per-row pmf must stay exact when both binomial factors and the quotient leave the f64 range). Sparse sources keep the
+    exact reference affordable: out[j] = sum_k x_k C(k,j) C(N-k,m-j) / C(N,m) in big integers."""
+    from math import comb
+    rng = rng_for(S.seed, "c03", p["name"], "bigtarget")
+    cases = []
+    for ci in range(p["bigproj"]):
+        N = rng.choice(LARGE[1:] + [rng.randint(173, 4000), rng.randint(173, 1200), 2400, 2047, 2048])
+        m = rng.choice([N, N - 1, N // 2, N // 2 + 1, int(0.47 * N), int(0.9 * N), min(N, 1000), min(N, 1001), min(N, 171), min(N, 1400), rng.randint(1, N), rng.randint(N // 2, N)])
+        ks = {rng.choice([0, 1, 2, N // 2, N // 2 - 1, N // 2 + 1, N - 1, N, N // 3, (2 * N) // 3, rng.randint(0, N), rng.randint(0, N)]) for _ in range(rng.randint(2, 6))}
+        ks.add(rng.choice([N // 2, rng.randint(N // 3, (2 * N) // 3)]))      # mass at intermediate allele counts
+        second = rng.choice([None, None, 1, 2, 3])
+        shape = [N + 1] if second is None else ([N + 1, second] if rng.random() < 0.5 else [second, N + 1])
+        ax = shape.index(N + 1)
+        n_ = O.prod(shape)
+        data = [0.0] * n_
+        src = {}
+        for k in sorted(ks):
+            o = rng.randrange(second) if second else 0
+            v = float(rng.choice([1, 2, 7, 1000, 0.5, 1e-3, 123456789, rng.random() * 50]))
+            if rng.random() < 0.15:
+                v = -v
+            flat = (k * second + o) if (second and ax == 0) else ((o * (N + 1) + k) if second else k)
+            data[flat] = v
+            src[(k, o)] = v
+        to = list(shape)
+        to[ax] = m + 1
+        cases.append({"N": N, "m": m, "shape": shape, "to": to, "ax": ax, "src": src, "data": data, "second": second})
+    res = harness.run_all([spec_req(c["shape"], c["data"], do="project", to=c["to"]) for c in cases])
+    for c, r in zip(cases, res):
+        N, m, ax, second = c["N"], c["m"], c["ax"], c["second"]
+        S.count("big_target_projections")
+        wit = {"level": "L", "big_target": {"shape": c["shape"], "to": c["to"], "nonzero": [[k, o, v] for (k, o), v in c["src"].items()]}}
+        tag = "big %r->%r sources %r" % (c["shape"], c["to"], sorted(k for k, _ in c["src"]))
+        if "data" not in r:
+            S.viol("C03:panic:project", "[%s] project failed: %s" % (tag, str(r)[:300]), wit)
+            continue
+        den = comb(N, m)
+        exact = {}
+        for (k, o), v in c["src"].items():
+            fv = Fraction(v)
+            for j in range(max(0, m - (N - k)), min(m, k) + 1):
+                exact[(j, o)] = exact.get((j, o), Fraction(0)) + fv * Fraction(comb(k, j) * comb(N - k, m - j), den)
+        scale = sum(abs(Fraction(v)) for v in c["src"].values())
+        got = [h2f(x) for x in r["data"]]
+        bad = []
+        w2 = second or 1
+        for flat, g in enumerate(got):
+            j, o = ((flat // w2, flat % w2) if ax == 0 else (flat % (m + 1), flat // (m + 1))) if second else (flat, 0)
+            e = exact.get((j, o), Fraction(0))
+            if not close(g, e, scale):
+                bad.append((flat, g, float(e)))
+        if r["shape"] != c["to"] or bad:
+            S.viol("C03:value:big-target", "[%s] %d cell(s) off; first (flat, got, exact) %r; output mass %r of %r" % (
+                tag, len(bad), bad[:4], sum(g for g in got if math.isfinite(g)), float(sum(Fraction(v) for v in c["src"].values()))), wit)
+        S.case(key=digest(["big", c["shape"], c["to"], sorted(c["src"].items())]), nontrivial=m < N)
 
 
 def check_random(S, p):
@@ -369,6 +428,7 @@ def shard(S, p):
             qs.append([N, K, n, rng.choice([mode, rng.randint(lo, hi), min(hi, mode + 1)])])
     check_pmf(S, p, qs, "pmf_medium")
     check_units(S, p)
+    check_big_targets(S, p)
     check_random(S, p)
     check_errors(S, p)
     check_cli(S, p)
